@@ -25,15 +25,16 @@ import (
 type Kind string
 
 const (
-	Sub      Kind = "sub"
-	Unsub    Kind = "unsub"
-	Clear    Kind = "clear"
-	ClearAll Kind = "clearall"
-	Pub      Kind = "pub"
-	Has      Kind = "has"
-	Count    Kind = "count"
-	Wait     Kind = "wait"
-	SetPH    Kind = "setpanichandler" // install the panic handler at this point (possibly from inside a handler)
+	Sub       Kind = "sub"
+	Unsub     Kind = "unsub"
+	Clear     Kind = "clear"
+	ClearAll  Kind = "clearall"
+	Pub       Kind = "pub"
+	Has       Kind = "has"
+	Count     Kind = "count"
+	Wait      Kind = "wait"
+	CancelSub Kind = "cancelsubctx"    // the context a SubscribeWithReplay registration was made with ends (Class: which one, counted over such registrations)
+	SetPH     Kind = "setpanichandler" // install the panic handler at this point (possibly from inside a handler)
 )
 
 // Reg describes a registration.
@@ -197,6 +198,7 @@ type Engine struct {
 	captured      []capturedCtx
 	cancels       []context.CancelFunc
 	persisted     []persistedEv
+	subCancels    []context.CancelFunc
 	inHookPub     bool
 	inPHPub       bool
 	syncPanicType int
@@ -216,7 +218,7 @@ type Engine struct {
 		ShardShare                                                                             bool
 		MaxDepth                                                                               int
 		Zombies                                                                                int
-		SkippedUnsub, ZombieUnsubs                                                             int
+		SkippedUnsub, ZombieUnsubs, SubCtxCancels                                              int
 	}
 }
 
@@ -588,6 +590,12 @@ func (e *Engine) exec(op *Op, hctx context.Context) {
 		if e.depth == 0 {
 			e.Bus.Wait()
 		}
+	case CancelSub:
+		// nobody unsubscribed anything: the registry, and what every handler receives, stay as they are
+		if n := len(e.subCancels); n > 0 {
+			e.subCancels[op.Class%n]()
+			e.Stats.SubCtxCancels++
+		}
 	case SetPH:
 		e.Bus.SetPanicHandler(e.panicHandler)
 		e.stamp(TEv{K: "ph.set"})
@@ -631,7 +639,9 @@ func (e *Engine) doSub(op *Op) {
 		}
 		e.replay = rf
 		e.Stats.ReplaySubs++
-		err = d.SubscribeReplay(e.Bus, context.Background(), fmt.Sprintf("sub-%d", r.id), o, cb)
+		sctx, scancel := context.WithCancel(context.Background())
+		e.subCancels = append(e.subCancels, scancel)
+		err = d.SubscribeReplay(e.Bus, sctx, fmt.Sprintf("sub-%d", r.id), o, cb)
 		e.replay = nil
 		if err == nil && rf.pos != len(rf.want) {
 			e.fail("registry:replay-missing", "SubscribeWithReplay delivered %d of the %d persisted events of its type", rf.pos, len(rf.want))
